@@ -192,6 +192,53 @@ func check(c Case) error {
 		}
 		return out, true
 	}
+	// fragment renders format their output whatever the settings of the File that resolves their
+	// imports: with an unformatted context File they succeed, fail and write exactly as with its
+	// formatted twin
+	{
+		twin := c.File.Clone()
+		var ops []recipe.FileOp
+		isNoFormat := false
+		for _, op := range twin.Ops {
+			if op.Op == "NoFormat" {
+				isNoFormat = true
+				continue
+			}
+			ops = append(ops, op)
+		}
+		twin.Ops = ops
+		if isNoFormat {
+			for i, n := range c.File.Body {
+				if n == nil || n.Kind != recipe.KStmt || i > 1 {
+					continue
+				}
+				type res struct {
+					err error
+					out string
+				}
+				run := func(fr *recipe.File, group bool) res {
+					w := &faultWriter{}
+					var err error
+					f := (&recipe.Builder{}).File(fr)
+					if group {
+						var g *jen.Group
+						jen.BlockFunc(func(x *jen.Group) { g = x; x.Add((&recipe.Builder{}).Stmt(n)) })
+						err = g.RenderWithFile(w, f)
+					} else {
+						err = (&recipe.Builder{}).Stmt(n).RenderWithFile(w, f)
+					}
+					return res{err, w.buf.String()}
+				}
+				for _, group := range []bool{false, true} {
+					a, b := run(c.File, group), run(twin, group)
+					if (a.err == nil) != (b.err == nil) || a.out != b.out {
+						return fmt.Errorf("RenderWithFile (group=%v) of body item %d with the NoFormat File as context: err=%v, wrote %q; with the same File formatted: err=%v, wrote %q", group, i, firstLine(a.err), a.out, firstLine(b.err), b.out)
+					}
+				}
+				cell("RenderWithFile, NoFormat context File vs formatted twin", "none", valid)
+			}
+		}
+	}
 	for _, tg := range targets {
 		entry := tg.name[:strings.IndexAny(tg.name+"[", "[")]
 		// fault-free reference for this entry point
@@ -510,6 +557,9 @@ func swapCase(b []byte) []byte {
 }
 
 func firstLine(err error) string {
+	if err == nil {
+		return "<nil>"
+	}
 	s := err.Error()
 	if i := strings.IndexByte(s, '\n'); i >= 0 {
 		s = s[:i]
